@@ -245,6 +245,8 @@ def run(run):
     if problems:
         run.inconclusive_because("reference codec fails its self-check: %s" % problems[:2])
         return
+    if run.shard == 0:
+        optimized_interpreter(run)
     mon = Monitor()
     limit_address_space()
     units = CC.schema_units(run, with_big=False)
@@ -295,10 +297,110 @@ def run(run):
                 judge(run, mon, fcp, sch, name, inp, text, kind, expect, nodes, sig.split("|")[0] + "|" + cls, v)
                 if len(run.samples) < 4 and kind.startswith(("prefix@1", "str count", "dyn count")) and len(text) < 1200:
                     run.sample({"schema": text, "struct": name, "value": v, "fault": kind, "input": inp, "expected": expect[0]})
+    grown_struct_history(run, mon)
     mon.reach.stop()
     run.extra["worst_work_case_of_shard_%d" % run.shard] = dict(mon.worst or {}, ratio=round(mon.max_ratio, 4))
     run.extra["reach"] = mon.reach.summary(12)
     run.exhaustive = None
+
+
+def grown_struct_history(run, mon):
+    """A struct is decoded once, then GROWN in place on the same schema object (a field appended or a new
+    lowest-id field added), and values of the grown struct are encoded: every strict prefix of the new
+    encoding must be rejected by the decoder that had seen the old shape."""
+    from fcp import serde
+    from fcp.specs.struct_field import StructField
+    from fcp.specs import type as T
+    from ..gen import shapes
+
+    for k in range(run.pick(8, 64)):
+        if not run.mine(k):
+            continue
+        r = run.rng("grown", k)
+        decls = [shapes.mk_struct("Inner", [("q", 0, ("u", 8))]),
+                 shapes.mk_struct("Grow", [("id", 1, ("u", 8)), ("payload", 2, ("dyn", ("u", 8))), ("n", 3, ("struct", "Inner"))])]
+        text = S.print_schema(decls)
+        res = CC.parse(text)
+        if res.is_err():
+            run.violation("front end rejected a well-formed codec schema: %r" % (res.err(),), {"schema": text})
+            return
+        fcp = res.unwrap()
+        v = {"id": r.randint(0, 255), "payload": [r.randint(0, 255) for _ in range(r.randint(0, 4))], "n": {"q": 7}}
+        try:
+            serde.decode(fcp, "Grow", bytearray(serde.encode(fcp, "Grow", v)))
+        except Exception:
+            continue
+        which = k % 3
+        target = "Inner" if which == 2 else "Grow"
+        new = [("crc", 9, ("u", 16)), ("first", 0, ("u", 8)), ("r", 5, ("u", 16))][which]
+        fcp.get_struct(target).unwrap().fields.append(StructField(new[0], new[1], T.UnsignedType("u%d" % new[2][1])))
+        decls2 = [shapes.mk_struct(d["name"], [(f["name"], f["id"], f["type"]) for f in d["fields"]] + ([new] if d["name"] == target else [])) for d in decls]
+        sch2 = S.Sch(decls2)
+        v2 = {"id": v["id"], "payload": v["payload"], "n": {"q": 7}}
+        (v2["n"] if which == 2 else v2)[new[0]] = 0xBEEF if new[2][1] == 16 else 0xA5
+        data2 = ref.encode(sch2, "Grow", v2)
+        try:
+            if bytes(serde.encode(fcp, "Grow", v2)) != data2:
+                continue  # the encoder's business (C02)
+        except Exception:
+            continue
+        text2 = S.print_schema(decls2) + "// reached by growing the parsed tree in place after a decode\n"
+        for cut in range(len(data2)):
+            judge(run, mon, fcp, sch2, "Grow", data2[:cut], text2, "prefix@%d/%d" % (cut, len(data2)), ("raise",), schema_nodes(sch2), "grown-in-place|%s|%s" % (target, new[0]), v2)
+        run.count("structs_grown_in_place_after_a_decode")
+
+
+OPT_SCRIPT = r"""
+import json, sys
+from fcp.parser import get_fcp_from_string
+from fcp.error import Logger
+from fcp import serde
+job = json.load(sys.stdin)
+fcp = get_fcp_from_string(job["schema"], Logger({})).unwrap()
+out = []
+for name, hx in job["inputs"]:
+    try:
+        out.append(["value", repr(serde.decode(fcp, name, bytearray(bytes.fromhex(hx))))[:200]])
+    except BaseException as e:
+        out.append(["raised", type(e).__name__])
+print(json.dumps(out))
+"""
+
+
+def optimized_interpreter(run):
+    """Strict prefixes decoded by interpreters started with -O / -OO (assert statements compiled away): still
+    rejected."""
+    import json
+    import subprocess
+    import sys as _sys
+    from ..gen import shapes, values as V
+
+    decls = [
+        shapes.mk_enum("Mode", 5),
+        shapes.mk_struct("In", [("p", 1, ("i", 6)), ("q", 0, ("u", 3))]),
+        shapes.mk_struct("Msg", [("a", 0, ("u", 5)), ("o", 1, ("opt", ("u", 9))), ("s", 2, ("str",)), ("n", 3, ("struct", "In")),
+                                 ("l", 4, ("dyn", ("enum", "Mode"))), ("f", 5, ("arr", ("f32",), 2)), ("w", 6, ("u", 64)), ("z", 7, ("i", 3))]),
+    ]
+    sch = S.Sch(decls)
+    text = S.print_schema(decls)
+    r = run.rng("optimized")
+    inputs = []
+    for v in V.struct_values(r, sch, "Msg", 3, {"finite": True})[:5]:
+        data = ref.encode(sch, "Msg", v)
+        for cut in range(len(data)):
+            inputs.append(["Msg", data[:cut].hex()])
+    for flag in ("-O", "-OO"):
+        try:
+            p = subprocess.run([_sys.executable, flag, "-c", OPT_SCRIPT], input=json.dumps({"schema": text, "inputs": inputs}), capture_output=True, text=True, timeout=600, env=env.child_env())
+            res = json.loads(p.stdout)
+        except Exception as e:
+            run.inconclusive_because("python %s child failed: %s: %s" % (flag, type(e).__name__, str(e)[:200]))
+            return
+        for (name, hx), (status, got) in zip(inputs, res):
+            if status != "raised":
+                run.violation("under python %s a strict prefix (%d bytes) decodes to a value" % (flag, len(hx) // 2), {"schema": text, "struct": name, "input": bytes.fromhex(hx), "fault": "prefix under python " + flag, "returned": got})
+                return
+            run.count("prefixes_rejected_under_optimizing_interpreters")
 
 
 def conclude(run):
